@@ -7,7 +7,7 @@ Helper lemmas and the C04/C05 layout theorems about `FfcxModel/IR/Layout.lean`.
   flatten_lt / flatten_inj / flatIdx_eq_flatComponent   row-major flattening, any rank, any sizes
   expr_layout / expr_layout_inj   C04  A[point][component][argument dof]
   expr_descriptor     C04  descriptor fields vs the layout
-  expr_num_constants_partial / _counterexample   C04  (the code's num_constants is the REDUCED count)
+  expr_num_constants / expr_num_constants_witness   C04  num_constants = number of blocks of the c layout
   tensorW_covers_partial / tensorW_interior_counterexample   tensor_sizes(IntegralIR).w ignores width
 
 Core Lean only (no Mathlib needed).
@@ -490,35 +490,46 @@ theorem exprDesc_two_arguments (e : ExprIn) (h : e.argDims.length > 1) :
     exprDesc e = .error "Expression with more than one Argument not implemented." := by
   simp [exprDesc, h]
 
-/-- Full statement wanted by C04: *the descriptor's `num_constants` is the number of constant blocks
-the kernel's `c` is laid out with* (`original_constant_offsets` has one block per constant of the
-ORIGINAL expression).  It holds when preprocessing removes no constant …
-(FULL: `∀ e d, exprDesc e = .ok d → d.numConstants = e.origConstShapes.length`) -/
-theorem expr_num_constants_partial (e : ExprIn) (d : ExprDesc) (h : exprDesc e = .ok d)
-    (hkeep : e.numConstsReduced = e.origConstShapes.length) :
-    d.numConstants = (constOffsets e.origConstShapes).length := by
-  unfold exprDesc at h
-  split at h
-  · simp at h
-  · split at h
+/-- **C04 `expr_num_constants`** (full).  The descriptor's `num_constants` (= number of `constant_names`)
+is the number of constant blocks the kernel's `c` is laid out with (`original_constant_offsets` has one
+block per constant of the ORIGINAL expression, in that order), whatever preprocessing removes; and
+for every named constant `k` the slot the kernel reads for an in-range component,
+`c[constAccess … k idx]`, lies in block `k` of that layout and inside `c[0, ΣΠshape)`. -/
+theorem expr_num_constants (e : ExprIn) (d : ExprDesc) (h : exprDesc e = .ok d) :
+    d.numConstants = e.origConstShapes.length
+    ∧ d.numConstants = (constOffsets e.origConstShapes).length
+    ∧ Tiles (constOffsets e.origConstShapes) (e.origConstShapes.map shapeProd) (constTotal e.origConstShapes)
+    ∧ (∀ k idx, k < d.numConstants → InRange (e.origConstShapes.getD k []) idx →
+        (constOffsets e.origConstShapes).getD k 0 ≤ constAccess e.origConstShapes k idx
+        ∧ constAccess e.origConstShapes k idx
+            < (constOffsets e.origConstShapes).getD k 0 + shapeProd (e.origConstShapes.getD k [])
+        ∧ constAccess e.origConstShapes k idx < constTotal e.origConstShapes) := by
+  have hn : d.numConstants = e.origConstShapes.length := by
+    unfold exprDesc at h
+    split at h
     · simp at h
-    · simp only [Except.ok.injEq] at h
-      subst h
-      simp [constOffsets, hkeep]
+    · split at h
+      · simp at h
+      · simp only [Except.ok.injEq] at h
+        subst h
+        rfl
+  obtain ⟨T, hacc⟩ := const_blocks_tile e.origConstShapes
+  refine ⟨hn, by simp [constOffsets, hn], T, ?_⟩
+  intro k idx hk hr
+  exact hacc k idx (by omega) hr
 
-/-- the witness of `harness/layout_checks.py`: `diff(c1*g + c3*h + c2[1]*x*x, x)`, `x = variable(f)`;
-constants of the original expression: shapes `(), (2,), ()`; only `c2` survives. -/
+/-- the former witness of `exprdesc:num_constants:dropped-constant`:
+`diff(c1*g + c3*h + c2[1]*x*x, x)`, `x = variable(f)`; constants of the original expression have
+shapes `(), (2,), ()`; only `c2` survives preprocessing. -/
 def dropWitness : ExprIn :=
   { tdim := some 2, numPoints := 2, pdim := 2, shape := [], argDims := [],
     origCoeffs := [0, 1, 2], coeffs := [0], origConstShapes := [[], [2], []], numConstsReduced := 1 }
 
-/-- … and FAILS in general: the descriptor announces 1 constant while the kernel reads
-`c[constAccess … 1 [1]] = c[2]`, beyond the extent (2) of the one constant the descriptor names. -/
-theorem expr_num_constants_counterexample :
-    ∃ d, exprDesc dropWitness = .ok d
-      ∧ d.numConstants ≠ (constOffsets dropWitness.origConstShapes).length
-      ∧ constAccess dropWitness.origConstShapes 1 [1] = 2
-      ∧ ¬ constAccess dropWitness.origConstShapes 1 [1] < shapeProd [2] := by
+/-- on the witness the descriptor now announces all 3 constants (it was 1), and the slot the kernel reads,
+`c[2]`, is component 1 of constant 1 inside `c[0,4)`. -/
+theorem expr_num_constants_witness :
+    ∃ d, exprDesc dropWitness = .ok d ∧ d.numConstants = 3
+      ∧ constAccess dropWitness.origConstShapes 1 [1] = 2 ∧ constTotal dropWitness.origConstShapes = 4 := by
   refine ⟨_, rfl, ?_, ?_, ?_⟩ <;> decide
 
 /-! ### tensor_sizes(IntegralIR).w (used by the numba backend for the extent of `w`) -/
@@ -681,22 +692,13 @@ theorem kernelCount_single (g : Group) (h : ∀ e ∈ g, e.domains.length = 1) :
     simp only [kernelCount, List.map_cons, List.sum_cons, List.length_cons] at this ⊢
     omega
 
-/-- The offsets loop is right when `offsets[-1]` (a kernel count) coincides with the number of
-entries accumulated so far — which the code silently assumes. -/
-theorem offsLoop_single (acc : List Entry) (gs : List Group)
-    (hgs : ∀ g ∈ gs, ∀ e ∈ g, e.domains.length = 1) :
-    offsLoop acc acc.length gs = cumulFrom acc.length (gs.map kernelCount) := by
-  induction gs generalizing acc with
+/-- The offsets loop is the running sum of the kernel counts of the groups — for integrals with ANY
+number of domains. -/
+theorem offsLoop_eq (last : Nat) (gs : List Group) :
+    offsLoop last gs = cumulFrom last (gs.map kernelCount) := by
+  induction gs generalizing last with
   | nil => rfl
-  | cons g gs ih =>
-    have hg := hgs g (by simp)
-    have hk := kernelCount_single g hg
-    have hrest := ih (acc ++ g) (fun g' hg' => hgs g' (by simp [hg']))
-    simp only [offsLoop, List.drop_left, List.map_cons, cumulFrom]
-    have e1 : (g.map (·.domains.length)).sum = kernelCount g := rfl
-    rw [e1]
-    have e2 : acc.length + kernelCount g = (acc ++ g).length := by simp [hk]
-    rw [e2, hrest]
+  | cons g gs ih => simp only [offsLoop, List.map_cons, cumulFrom, ih]
 
 theorem slice_flatten {β} (offs : List Nat) (segs : List (List β))
     (h : Delimits offs (segs.map List.length)) (t : Nat) (ht : t < segs.length) :
@@ -770,33 +772,46 @@ theorem expectedGroup_cons (d : ItgData) (ds : List ItgData) (t : Nat) :
   simp only [expectedGroup, List.filter_cons]
   by_cases h : d.itype = t <;> simp [h]
 
+theorem isNegative_false_iff (s : SubId) :
+    s.isNegative = false ↔ (∀ i, s = .num i → 0 ≤ i) := by
+  cases s with
+  | otherwise => simp [SubId.isNegative]
+  | num i =>
+    simp only [SubId.isNegative, decide_eq_false_iff_not, SubId.num.injEq, forall_eq']
+    omega
+
 theorem formIRStep_ok (groups : List Group) (d : ItgData) (g' : List Group)
     (h : formIRStep groups d = .ok g') :
-    g' = modifyAt (· ++ d.entries) d.itype groups ∧ d.itype < groups.length ∧ d.subIds ≠ []
-      ∧ ∀ s ∈ d.subIds, -1 ≤ s.toInt := by
+    g' = modifyAt (· ++ d.entries) d.itype groups ∧ d.itype < groups.length
+      ∧ ∀ i, SubId.num i ∈ d.subIds → 0 ≤ i := by
   unfold formIRStep at h
   split at h
   · simp at h
-  · rename_i m hm
+  · rename_i hneg
     split at h
+    · rename_i hlt
+      simp only [Except.ok.injEq] at h
+      refine ⟨h.symm, hlt, ?_⟩
+      intro i hi
+      have : (SubId.num i).isNegative = false := by
+        cases hb : (SubId.num i).isNegative with
+        | false => rfl
+        | true => exact absurd (List.any_eq_true.mpr ⟨_, hi, hb⟩) hneg
+      exact (isNegative_false_iff _).mp this i rfl
     · simp at h
-    · rename_i hge
-      split at h
-      · rename_i hlt
-        simp only [Except.ok.injEq] at h
-        have hmin := List.min?_eq_some_iff.mp hm
-        refine ⟨h.symm, hlt, ?_, ?_⟩
-        · intro he; simp [he] at hm
-        · intro s hs
-          have := hmin.2 s.toInt (List.mem_map.mpr ⟨s, hs, rfl⟩)
-          omega
-      · simp at h
+
+theorem formIRStep_neg (groups : List Group) (d : ItgData) (i : Int) (hi : SubId.num i ∈ d.subIds)
+    (hneg : i < 0) : formIRStep groups d = .error "Integral subdomain IDs must be non-negative." := by
+  unfold formIRStep
+  have : d.subIds.any SubId.isNegative = true :=
+    List.any_eq_true.mpr ⟨_, hi, by simp [SubId.isNegative, hneg]⟩
+  simp [this]
 
 theorem formIRLoop_ok (groups : List Group) (itgs : List ItgData) (gs : List Group)
     (h : formIRLoop groups itgs = .ok gs) :
     gs.length = groups.length
     ∧ (∀ t, t < groups.length → gs.getD t [] = groups.getD t [] ++ expectedGroup itgs t)
-    ∧ (∀ d ∈ itgs, d.itype < groups.length ∧ d.subIds ≠ [] ∧ ∀ s ∈ d.subIds, -1 ≤ s.toInt) := by
+    ∧ (∀ d ∈ itgs, d.itype < groups.length ∧ ∀ i, SubId.num i ∈ d.subIds → 0 ≤ i) := by
   induction itgs generalizing groups with
   | nil =>
     simp only [formIRLoop, Except.ok.injEq] at h
@@ -807,7 +822,7 @@ theorem formIRLoop_ok (groups : List Group) (itgs : List ItgData) (gs : List Gro
     split at h
     · simp at h
     · rename_i g' hstep
-      obtain ⟨hg', hlt, hne, hge⟩ := formIRStep_ok groups d g' hstep
+      obtain ⟨hg', hlt, hge⟩ := formIRStep_ok groups d g' hstep
       obtain ⟨hl, hget, hacc⟩ := ih g' h
       have hlen : g'.length = groups.length := by rw [hg']; simp
       refine ⟨by omega, ?_, ?_⟩
@@ -819,7 +834,7 @@ theorem formIRLoop_ok (groups : List Group) (itgs : List ItgData) (gs : List Gro
           simp [e, this]
       · intro x hx
         rcases List.mem_cons.mp hx with rfl | hx
-        · exact ⟨hlt, hne, hge⟩
+        · exact ⟨hlt, hge⟩
         · have := hacc x hx
           exact ⟨by omega, this.2⟩
 
